@@ -233,6 +233,12 @@ class DFXPReader(BaseReader):
                 # unicode string with xml entities already converted to unicode
                 # characters.
                 tag_text = result.groups()[0]
+                rest = tag[result.end():]
+                if rest.strip():
+                    # the text is wrapped over several source lines: keep all
+                    # its words; a line end with its indentation is white space
+                    tag_text = re.sub(r'[\n\r]+\s*$', '', tag_text + rest)
+                    tag_text = re.sub(r'\s*[\n\r]+\s*', ' ', tag_text)
                 node = CaptionNode.create_text(
                     tag_text, layout_info=tag.layout_info)
                 self.nodes.append(node)
